@@ -37,13 +37,22 @@ def txt(codes):
     return s if len(s) <= 48 else "%s..(%d chars)" % (s[:40], len(s))
 
 
-def pair_case(sid, a, b, code):
+LEVELS = [0]      # DebugLevels of the specification, taken from the first emitted row
+
+
+def pair_case(sid, a, b, code, levels=None):
+    """one ordered pair, one step per run-time debug level"""
     exp = "*" if code // 10 in UNCLAIMED else str(code % 10)
-    return x_c12.Case(sid, [("pair", [tok(a), tok(b)], exp, None)], {"a": txt(a), "b": txt(b), "rule": RULES[code // 10], "code": code})
+    return x_c12.Case(sid, [("pair", [tok(a), tok(b), str(L)], exp, None) for L in (levels or LEVELS)],
+                      {"a": txt(a), "b": txt(b), "rule": RULES[code // 10], "code": code, "levels": list(levels or LEVELS)})
 
 
 def pair_key(c, at, f):
-    return "vercmp [%s] %s" % (c.meta["rule"], x_c12.fail_class(f) if f.kind != "ret" else "ret/" + verdict(f.exp, f.got))
+    return "vercmp%s [%s] %s" % (lvl_tag(c.meta["levels"][at]), c.meta["rule"], x_c12.fail_class(f) if f.kind != "ret" else "ret/" + verdict(f.exp, f.got))
+
+
+def lvl_tag(level):
+    return "" if not level else "@debug-level>0"
 
 
 def verdict(exp, got):
@@ -56,14 +65,14 @@ def verdict(exp, got):
     return "exp=%s,got=%s" % (DIGIT.get(int(exp), exp) if exp.isdigit() else exp, DIGIT.get(g, got))
 
 
-def report_digit(ctx, a, b, code, got, origin):
+def report_digit(ctx, a, b, code, got, origin, level=0):
     """one ordered pair whose digit is wrong"""
     rule = RULES[code // 10]
     exp = "*" if code // 10 in UNCLAIMED else str(code % 10)
-    key = "vercmp [%s] ret/%s" % (rule, verdict(exp, str(got)))
-    c = pair_case(1, a, b, code)
-    ctx.report(key, "version_compare(%r, %r): %s (expected %s by rule %s) [%s]" % (
-        txt(a), txt(b), DIGIT.get(got, got), DIGIT.get(code % 10) if code // 10 not in UNCLAIMED else "any value, but deterministic and antisymmetric", rule, origin),
+    key = "vercmp%s [%s] ret/%s" % (lvl_tag(level), rule, verdict(exp, str(got)))
+    c = pair_case(1, a, b, code, levels=[level])
+    ctx.report(key, "version_compare(%r, %r): %s (expected %s by rule %s) [%s, debug level %d]" % (
+        txt(a), txt(b), DIGIT.get(got, got), DIGIT.get(code % 10) if code // 10 not in UNCLAIMED else "any value, but deterministic and antisymmetric", rule, origin, level),
         {"harness_args": ["-"], "script_text": c.text(), "meta": c.meta})
 
 
@@ -76,34 +85,36 @@ def table(ctx, exe, mode, rows):
     with open(ufile, "w") as f:
         for i in range(1, n + 1):
             f.write(tok(rows[i][0]) + "\n")
-    cases = [x_c12.Case(i, [("row", [str(i)], "?", None)], {"mode": mode, "row": i}) for i in range(1, n + 1)]
+    cases = [x_c12.Case(i, [("row", [str(i), str(L)], "?", None) for L in LEVELS], {"mode": mode, "row": i}) for i in range(1, n + 1)]
     got = {}
     crashed = []
 
     def recorder(c, at, ret):
-        got[c.sid] = ret
+        got[(c.sid, at)] = ret
 
     def on_fail(c, at, f):
-        crashed.append((c.sid, f))
+        if c.sid not in [s for s, _ in crashed]:
+            crashed.append((c.sid, f))
         return True
     x_c12.run_cases(ctx, exe, [ufile], cases, lambda c, at, f: "vercmp row %s" % x_c12.fail_class(f), "table_" + mode,
                     recorder=recorder, on_fail=on_fail, chunk=100000)
     bad = 0
     npairs = 0
     for i in range(1, n + 1):
-        r = got.get(i)
-        if r is None:
-            continue
-        if len(r) != n + 1 or r[0] != "r":
-            raise Broken("malformed row answer %r" % r[:40])
-        codes = rows[i][1]
-        npairs += n
-        for j in range(n):
-            g = ord(r[j + 1]) - 48
-            code = codes[j]
-            if g >= 5 or (code // 10 not in UNCLAIMED and g != code % 10):
-                bad += 1
-                report_digit(ctx, rows[i][0], rows[j + 1][0], code, g, "%s table row %d col %d" % (mode, i, j + 1))
+        for at, level in enumerate(LEVELS):
+            r = got.get((i, at))
+            if r is None:
+                continue
+            if len(r) != n + 1 or r[0] != "r":
+                raise Broken("malformed row answer %r" % r[:40])
+            codes = rows[i][1]
+            npairs += n
+            for j in range(n):
+                g = ord(r[j + 1]) - 48
+                code = codes[j]
+                if g >= 5 or (code // 10 not in UNCLAIMED and g != code % 10):
+                    bad += 1
+                    report_digit(ctx, rows[i][0], rows[j + 1][0], code, g, "%s table row %d col %d" % (mode, i, j + 1), level)
     # rows that died (sanitizer report, hang): localise by running their pairs one by one
     loc = 0
     for sid, f in crashed[:40]:
@@ -115,7 +126,7 @@ def table(ctx, exe, mode, rows):
         ctx.cov["traces_validated_against_impl"] -= rp["scripts"]      # counted as pairs below, not as scripts of their own
     if len(crashed) > 40:
         ctx.notes.append("%d further rows of the %s table died and were not localised pair by pair" % (len(crashed) - 40, mode))
-    ctx.cov.setdefault("tables", {})[mode] = {"texts": n, "ordered_pairs_executed": npairs, "calls": 3 * npairs, "rows_died": len(crashed),
+    ctx.cov.setdefault("tables", {})[mode] = {"texts": n, "ordered_pairs_executed": npairs, "calls": 3 * npairs, "debug_levels": list(LEVELS), "rows_died": len(crashed),
                                                 "pairs_localised": loc, "pairs_wrong": bad}
     return npairs
 
@@ -132,6 +143,15 @@ def long_family(rnd, nrandom):
                   ("1." + run, "1." + run + other), (run + other, run + other + other), (run, other), ("1" + run if ch != "7" else "a" + run, run),
                   (run + ".1", run + ".2"), (run, ch * (L // 2))]
     P += [("x" * 127 + "snap", "x" * 127 + "pre"), ("1." + "0" * 200 + "1", "1.1"), ("9" + "0" * 128, "1" * 130), ("pre" * 60, "pre" * 60 + "1")]
+    # every byte value 1..255: as a separator between two numbers against '.' and '-', against the next separator byte, doubled,
+    # and (letters, digits) as the distinguishing character of a suffix word / a number
+    others = [b for b in range(1, 256) if not chr(b).isalnum() or b > 127]
+    for k, b in enumerate(others):
+        c, c2 = chr(b), chr(others[(k + 1) % len(others)])
+        P += [("1" + c + "2", "1.2"), ("1" + c + "2", "1-2"), ("1" + c + "2", "1" + c2 + "2"), ("1" + c + c, "1" + c), ("1.0" + c + "pre", "1.0pre")]
+    for b in range(1, 128):
+        if chr(b).isalnum():
+            P += [("1.0" + chr(b) + "1", "1.0pre1"), ("1.0" + chr(b), "1.0"), ("1." + chr(b), "1.5"), ("1.0rc" + chr(b), "1.0rc")]
     syms = ["1", "2", "0", "10", "4294967297", "a", "b", "Z", ".", "-", "_", "pre", "rc", "snap", "alpha", "beta", "PRE", "Rc", "prefix", "snapshot"]
     for _ in range(nrandom):
         a = "".join(rnd.choice(syms) for _ in range(rnd.randint(0, 8)))
@@ -159,6 +179,7 @@ def run(ctx):
             info.append(r)
             return
         mode, i, text = r["args"]
+        LEVELS[:] = [int(x) for x in r["lv"]]
         count["EvalRawRow" if mode == "raw" else "EvalWfRow"] += 1
         rows[mode][i] = (text, r["r"])
         for c in r["r"]:
